@@ -280,4 +280,30 @@ def run(ctx: Ctx, tier: str) -> Result:
         res.fail(Finding("C20.LOAD", lp.qname, "<sort by order()>", lp.loc(), "loaded plugins are not sorted ascending by order()"))
     from .common import borrow
     borrow(ctx, res, tier, "c19", ("C19.CHAIN",), "C20.SWITCH", "a plugin switch given in configuration resolves as documented (a falsy value is a value)")
+    # every plugin hands its name and the configuration to the base constructor in their own places (the switch
+    # PLUGIN_<NAME> is read from `config` under `name`)
+    pinit = ctx.prog.func("deep.api.plugin.Plugin.__init__")
+    nsup = 0
+    for f_ in ctx.prog.functions.values():
+        if f_.name != "__init__" or f_.cls is None or not any(k.qname == "deep.api.plugin.Plugin" for k in f_.cls.mro[1:]):
+            continue
+        for c_ in ctx.types.calls_in(f_):
+            if not (isinstance(c_.func, ast.Attribute) and c_.func.attr == "__init__" and pinit in ctx.types.resolve_call(c_, f_).repo):
+                continue
+            nsup += 1
+            b_ = ctx.types.bind_args(pinit, c_)
+            bad_ = []
+            for pn, a_ in b_.items():
+                if pn in ("name", "config") and isinstance(a_, ast.Name) and a_.id in ("name", "config") and a_.id != pn:
+                    bad_.append((pn, a_.id))
+                if pn == "config" and isinstance(a_, ast.Constant) and isinstance(a_.value, str):
+                    bad_.append((pn, repr(a_.value)))
+                if pn == "name" and isinstance(a_, ast.Name) and a_.id.lower().endswith("config"):
+                    bad_.append((pn, a_.id))
+            if bad_:
+                res.fail(Finding("C20.LOAD", f_.qname, c_, f_.loc(c_), "the base constructor receives %s: the plugin's switch is looked up on the wrong object and always reads as "
+                                 "`active` - a plugin switched off by configuration is loaded" % ", ".join("`%s` as its %s" % (v, k) for k, v in bad_)))
+            else:
+                res.ok("C20.LOAD", {"base constructor gets name/config in place": f_.qname})
+    res.floor("plugin constructors calling the base constructor", nsup, 2)
     return res
